@@ -185,6 +185,17 @@ func Solve(o *Obligation, workDir string, timeoutS int, confirm bool) *SolveResu
 			}
 		}
 	}
+	if res.Status == "unknown" {
+		allErr := len(res.Tried) > 0
+		for _, t := range res.Tried {
+			if !strings.HasSuffix(t, ":error") {
+				allErr = false
+			}
+		}
+		if allErr {
+			res.Status = "error"
+		}
+	}
 	res.Seconds = time.Since(t0).Seconds()
 	if confirm && res.Status == "unsat" {
 		for _, sv := range solvers {
